@@ -294,6 +294,137 @@ def r5_find(ctx, prog):
             r.ok(f['qname'], site, '%d abstract paths, none registers a handle' % len(o.outcomes), file=f['file'], line=f['line'])
 
 
+def bbool_reads(fn):
+    """Assignments / initialisations whose right-hand side reads a CK_BBOOL through the pValue of a template entry: [(target Var node, rhs, template variable name, line)]."""
+    out = []
+    for n in walk(fn['body']):
+        pairs = []
+        if n.get('k') == 'Assign' and n.get('op') == '=':
+            pairs.append((n['a'], n['b']))
+        elif n.get('k') == 'Decl':
+            pairs += [(d['var'], d['init']) for d in n['decls'] if d.get('init')]
+        for lhs, rhs in pairs:
+            for x in walk(rhs):
+                if x.get('k') == 'Un' and x.get('op') == '*' and x['e'].get('k') == 'Member' and x['e'].get('field') == 'pValue' and 'CK_BBOOL' in (x['e'].get('cast') or ''):
+                    base = [v['name'] for v in walk(x['e']['base']) if v.get('k') == 'Var' and v.get('kind') == 'param']
+                    if lhs.get('k') == 'Var' and base:
+                        out.append((lhs, rhs, base[0], n.get('l')))
+    return out
+
+
+class BoolReads(Outcomes):
+    """Records the concrete value every policy flag receives from a template entry."""
+    targets = ()
+
+    def on_assign(self, lhs, rhs, st):
+        if lhs.get('k') == 'Var' and lhs['name'] in self.targets and rhs is not None and any(x.get('k') == 'Member' and x.get('field') == 'pValue' for x in walk(rhs)):
+            self.ev(st, ('flag', lhs['name'], self.ceval(rhs, st), lhs.get('l')))
+        return super().on_assign(lhs, rhs, st)
+
+
+def r7_bool_values(ctx, prog, rule_id='C01.R7'):
+    """The access decision for a new object is taken on the CKA_TOKEN / CKA_PRIVATE values read from the template; the attribute layer then stores the same template values. Both must read a
+    CK_BBOOL the same way for EVERY byte value (0, 1, and the non-canonical 2 / 0xff), otherwise an object is checked as public and stored as private (or checked as session, stored on the token)."""
+    r = ctx.rule(rule_id, 'policy flags and stored flags read a template CK_BBOOL the same way', floor=20, engine='E2 finite-domain evaluation + E7 sibling agreement')
+    # what the store does with the byte: P11AttrPrivate / P11AttrToken ::updateAttr
+    stored = {}
+    for attr, cls in (('CKA_PRIVATE', 'P11AttrPrivate'), ('CKA_TOKEN', 'P11AttrToken')):
+        u = prog.fn(cls + '::updateAttr')
+        ctx.analysed(u)
+        inits = {d['var']['name']: d['init'] for n in walk(u['body']) if n.get('k') == 'Decl' for d in n['decls'] if d.get('init')}
+        for v in (0, 1, 2, 255):
+            o = Outcomes(u, prog, cenv={re.compile(r'\*%s' % param_name(u, 2)): v, param_name(u, 3): 1, param_name(u, 4): macro(prog, 'OBJECT_OP_CREATE')}, record_calls={'setAttribute'}).go()
+            r.paths += len(o.outcomes)
+            vals = set()
+            for oc in o.outcomes:
+                for e in oc['events']:
+                    if e[0] == 'call' and e[1] == 'setAttribute':
+                        a = e[2][-1]
+                        i = inits.get(a)
+                        lit = [x for x in walk(i)] if i else []
+                        lv = [x['v'] for x in lit if x.get('k') == 'Lit']
+                        vals.add(bool(int(lv[0])) if lv and str(lv[0]).lstrip('-').isdigit() else ('true' in a if ('true' in a or 'false' in a) else None))
+            if len(vals) != 1 or None in vals:
+                r.undecided(u['qname'], 'stored value for byte %d' % v, 'cannot tell what is stored: %s' % sorted(map(str, vals)), file=u['file'], line=u['line'])
+                return
+            stored[(attr, v)] = vals.pop()
+    for g in sorted(prog.functions.values(), key=lambda g: (g['file'], g['line'])):
+        if not g['file'].endswith('SoftHSM.cpp'):
+            continue
+        reads = bbool_reads(g)
+        if not reads:
+            continue
+        # policy flags: by-reference outputs, or variables handed to haveWrite/haveRead in this function
+        pol = {x['name'] for c in calls(g['body']) if short(c.get('callee')) in ('haveWrite', 'haveRead') for a in c.get('args', []) if a for x in walk(a) if x.get('k') == 'Var'}
+        pol |= {pp['var']['name'] for pp in g['params'] if pp.get('var') and '&' in (pp.get('type') or '')}
+        reads = [x for x in reads if x[0]['name'] in pol]
+        if not reads:
+            continue
+        ctx.analysed(g)
+        tmpl = reads[0][2]
+        for attr in ('CKA_PRIVATE', 'CKA_TOKEN'):
+            seen = 0
+            for v in (0, 1, 2, 255):
+                cenv = {'isInitialised': 1, re.compile(r'%s\[\w+\]\.type' % tmpl): macro(prog, attr), re.compile(r'%s\[\w+\]\.ulValueLen' % tmpl): 1, re.compile(r'\*%s\[\w+\]\.pValue' % tmpl): v}
+                o = BoolReads(g, prog, cenv=cenv, record_calls=set())
+                o.targets = {x[0]['name'] for x in reads}
+                o.CAP = 64
+                o.LOOP_ROUNDS = 2
+                o.go()
+                r.paths += len(o.outcomes)
+                got = {(e[1], e[2], e[3]) for oc in o.outcomes for e in oc['events'] if e[0] == 'flag'}
+                site = '%s byte %d' % (attr, v)
+                if not got:
+                    continue
+                seen += 1
+                und = [x for x in got if not isinstance(x[1], int)]
+                bad = [x for x in got if isinstance(x[1], int) and bool(x[1]) != stored[(attr, v)]]
+                if bad:
+                    r.violation(g['qname'], site, 'a template %s of byte value %d makes the policy flag %s %s (line %s), while %s::updateAttr stores %s for the same byte: the access check and the stored object disagree'
+                                % (attr, v, bad[0][0], 'true' if bad[0][1] else 'false', bad[0][2], 'P11AttrPrivate' if attr == 'CKA_PRIVATE' else 'P11AttrToken', 'true' if stored[(attr, v)] else 'false'),
+                                file=g['file'], line=bad[0][2])
+                elif und:
+                    r.undecided(g['qname'], site, 'value of %s not concrete' % und[0][0], file=g['file'], line=und[0][2])
+                else:
+                    r.ok(g['qname'], site, ', '.join('%s=%s' % (x[0], x[1]) for x in sorted(got)), file=g['file'], line=sorted(got)[0][2])
+            if not seen:
+                r.undecided(g['qname'], attr, 'the read of the flag was not reached', file=g['file'], line=g['line'])
+            # the same attribute twice: the attribute layer applies the entries in order, so the last one is what gets stored; the policy flag must be the last one too
+            names = [pp['var']['name'] for pp in g['params']]
+            cnt = names[names.index(tmpl) + 1] if tmpl in names and names.index(tmpl) + 1 < len(names) else None
+            for v0, v1 in ((1, 0), (0, 1)):
+                site = '%s given twice (%d then %d)' % (attr, v0, v1)
+                if cnt is None:
+                    r.undecided(g['qname'], site, 'no count parameter after %s' % tmpl, file=g['file'], line=g['line'])
+                    continue
+                cenv = {'isInitialised': 1, cnt: 3, '#concrete-loops': 1}
+                other = 'CKA_TOKEN' if attr == 'CKA_PRIVATE' else 'CKA_PRIVATE'
+                for j, a, v in ((0, attr, v0), (1, other, 1), (2, attr, v1)):       # the other policy attribute in between: a scan that stops once it has seen one of each is caught too
+                    cenv.update({re.compile(r'%s\[%d\]\.type' % (tmpl, j)): macro(prog, a), re.compile(r'%s\[%d\]\.ulValueLen' % (tmpl, j)): 1, re.compile(r'\*%s\[%d\]\.pValue' % (tmpl, j)): v})
+                o = BoolReads(g, prog, cenv=cenv, record_calls=set())
+                o.targets = {x[0]['name'] for x in reads}
+                o.CAP = 64
+                o.LOOP_ROUNDS = 4
+                o.go()
+                r.paths += len(o.outcomes)
+                finals = set()
+                for oc in o.outcomes:
+                    fl = [e for e in oc['events'] if e[0] == 'flag']
+                    fl = [e for e in fl if e[1] == fl[0][1]]        # the variable the first entry (this attribute) went to
+                    if len(fl) >= 1 and (may_succeed(oc) or oc['ret'] is None):
+                        finals.add((fl[-1][1], fl[-1][2], fl[-1][3], len(fl)))
+                if not finals:
+                    r.undecided(g['qname'], site, 'no path reads the flag', file=g['file'], line=g['line'])
+                elif any(not isinstance(x[1], int) for x in finals):
+                    r.undecided(g['qname'], site, 'flag value not concrete', file=g['file'], line=g['line'])
+                elif any(bool(x[1]) != bool(v1) for x in finals):
+                    x = [x for x in finals if bool(x[1]) != bool(v1)][0]
+                    r.violation(g['qname'], site, 'the policy flag %s ends up %s (taken from the first entry, line %s), while saveTemplate applies both entries in order and stores %s: the access / downgrade check and the stored object disagree'
+                                % (x[0], 'true' if x[1] else 'false', x[2], 'true' if v1 else 'false'), file=g['file'], line=x[2])
+                else:
+                    r.ok(g['qname'], site, 'last entry wins (%s)' % ', '.join(sorted('%s=%s' % (x[0], x[1]) for x in finals)), file=g['file'], line=g['line'])
+
+
 def run(ctx):
     prog = ctx.prog('ossl-file')
     r1_access(ctx, prog)
@@ -303,9 +434,14 @@ def run(ctx):
     r5_find(ctx, prog)
     from rules import c11
     c11.r5_predicates(ctx, prog, rule_id='C01.R6')
+    r7_bool_values(ctx, prog)
+    from rules import c06
+    c06.r7_default_privacy(ctx, prog, rule_id='C01.R8')
 
 
 MUTANTS = [
+    dict(name='extract-private-canonical-only', rule='C01.R7', file='src/lib/SoftHSM.cpp', after='static CK_RV extractObjectInformation(',
+         old='isPrivate = *(CK_BBOOL*)pTemplate[i].pValue;', new='isPrivate = (*(CK_BBOOL*)pTemplate[i].pValue == CK_TRUE) ? CK_TRUE : CK_FALSE;'),
     dict(name='symdecryptinit-no-access-check', rule='C01.R1', function='SymDecryptInit', file='src/lib/SoftHSM.cpp',
          after='CK_RV SoftHSM::SymDecryptInit(',
          old='\tCK_RV rv = haveRead(session->getState(), isOnToken, isPrivate);\n', new='\tCK_RV rv = CKR_OK;\n'),
